@@ -578,6 +578,9 @@ def main_threads(prop, tier, seed, budget):
         with open(fpath, 'w') as f:
             f.write('# trompeloeil deterministic-simulation replay file v1\nbinary %s\nprofile threads\nproperty C12\noracle %s\nviolation %s in %s (%s)\n' % (c['binary'], c['crash'][0], c['crash'][0], c['crash'][1], c['crash'][2]) + pl)
         r1 = replay(binary, fpath)
+        if c['crash'][0] == 'hang' and r1['kind'] == 'ok':
+            log('note: seed %d was silent for %d s in a worker but completes normally when replayed (machine load, not a hang)' % (c['seed'], IDLE_S))
+            continue
         if r1['kind'] == 'crash' and r1['crash'][0] == c['crash'][0]:
             out_lines.append('VIOLATION property=%s replay=%s' % (prop, fpath)); exit_code = 1; reported += 1
             log('violation: %s in %s (%s)' % c['crash'])
@@ -775,6 +778,9 @@ def main():
             want = dict(kind='crash', crash=c['crash'], prop=prop)
         # gate 1: same seed again in fresh processes gives the same result twice
         r1 = replay(binary, path); r2 = replay(binary, path)
+        if kind == 'c' and c['crash'][0] == 'hang' and r1['kind'] == 'ok' and r2['kind'] == 'ok' and r1.get('hash') == r2.get('hash'):
+            log('note: seed %d was silent for %d s in a worker but completes normally when replayed (machine load, not a hang)' % (c['seed'], IDLE_S))
+            continue
         if not same_class(r1, want) or not same_class(r2, want) or r1.get('hash') != r2.get('hash'):
             harness_fault = 'candidate from seed %d (%s) did not reproduce identically in fresh processes: %s / %s' % (c['seed'], want.get('oracle', want.get('crash')), r1, r2)
             continue
